@@ -1,6 +1,7 @@
 (* Runs coq/P21Lex.v (extracted) on the requests of harness/h_lex.cc *)
 open Conv
 open P21Lex
+open P21Enum
 
 let unhex (h : string) : string =
   let n = String.length h / 2 in
@@ -38,6 +39,19 @@ let () =
         | 'W' ->
           (* data = "<rbuf>" : the %.15G text produced by the harness *)
           Printf.printf "W %s\n" (string_of_bytes (write_real_text (bytes_of_string data)))
+        | 'L' | 'B' | 'E' ->
+          let table = (match k with
+              | 'L' -> coq_LOGICAL_TABLE
+              | 'B' -> coq_BOOLEAN_TABLE
+              | _ -> [bytes_of_string "AHEAD"; bytes_of_string "BEHIND"; bytes_of_string "A1"]) in
+          let nsearch = Conv.nat_of_int (match k with 'L' -> 4 | 'B' -> 2 | _ -> 3) in
+          let r = read_enum table nsearch (if k = 'L' then Some (Conv.z_of_int 2) else None) true s0 in
+          let s = r.e_stream in
+          let (a, v) = (match r.e_val with
+              | Some i -> (1, string_of_z i)
+              | _ -> (0, "-")) in
+          Printf.printf "%c %d %s %d %d %d %d\n" k a v (int_of_z r.e_sev)
+            (Stdlib.List.length s.rest) (b2i s.eofb) (b2i s.failb)
         | _ -> ()
       end
     done
